@@ -15,6 +15,7 @@ type Env struct {
 	vars   map[string]Term
 	pkg    *types.Package
 	parent *Env
+	states map[string]*State // named states ("$iter": start of the current loop iteration)
 }
 
 type xlateErr string
@@ -34,6 +35,15 @@ func (e *Env) lookup(name string) (Term, bool) {
 		}
 	}
 	return Term{}, false
+}
+
+func (e *Env) lookupState(name string) (*State, bool) {
+	for x := e; x != nil; x = x.parent {
+		if s, ok := x.states[name]; ok {
+			return s, true
+		}
+	}
+	return nil, false
 }
 
 func (e *Env) withState(st *State) *Env {
@@ -757,6 +767,25 @@ func (e *Env) call(x *ECall) Term {
 	case "sref":
 		a := e.value(e.tr(x.Args[0]))
 		return Term{S: sx("sl_ref", a.S), Sort: "Int"}
+	case "fn":
+		// fn("name"): the function constant of a named function or function literal
+		name, ok := x.Args[0].(*EStr)
+		if !ok {
+			e.fail("fn() needs a function name string")
+		}
+		return Term{S: vc.funcConst(name.Val), Sort: "Int"}
+	case "mkiface":
+		a := e.tr(x.Args[0])
+		b := e.tr(x.Args[1])
+		return Term{S: sx("mk-iface", a.S, b.S), Sort: "Iface", T: types.NewInterfaceType(nil, nil)}
+	case "iter":
+		// iter(e): the value of e at the start of the current loop iteration
+		st, ok := e.lookupState("$iter")
+		if !ok {
+			e.fail("iter() is only available in loop iteration clauses")
+		}
+		n := e.withState(st)
+		return n.value(n.tr(x.Args[0]))
 	case "isclosure":
 		// isclosure(f, "Outer$1"): f is a closure of the named function literal
 		a := e.tr(x.Args[0])
